@@ -27,17 +27,21 @@ Representation notes (each is behaviour preserving, and is what the corresponden
   key, so aliases are in bijection with `(class of the variable, relationship path from it)`; the model keys joins by
   that pair (`Join`).  A column reference is `(hops, column)`: the column `column` of the alias reached by `hops`
   (`hops = []`: the un-aliased DAO class itself).
-* **Columns are resolved BY CLASS (defect F-C07-1).**  `translate_attribute` starts from `get_dao_class(type of the
-  chain's variable)`, never from the variable: an un-aliased class column denotes the select's own FROM element
-  whenever that column's table belongs to the selected class's joined-inheritance chain.  So a chain on a *second*
-  variable of the same class (or of a class sharing the declaring table) silently reads the *selected* row.  The model
-  does exactly that (`ColRef` has no variable), and sets the flag `byClass`.  Chains on another variable whose first
-  attribute is declared *outside* the selected class's ancestry (implicit cross joins, SQL errors) are outside the model:
-  `Fail.outsideModel` — the harness never generates them and no theorem speaks about them.
-* Exceptions that are not `EQLTranslationError` (`set_of` → AttributeError, Index/Call/Flatten operand →
-  ArgumentError, equality join of the selected class with itself → InvalidRequestError at execution) are `Fail.escape`
-  (defect F-C07-3).  Their relative order with `EQLTranslationError`s of *other* atoms of the same query is not modelled
-  (the harness never mixes them; the self-join is only generated among hop-free atoms).
+* **One FROM element per variable** (fix 544475f, F-C07-1 and F-C07-4).  `_entity_of_variable`: the selected variable is
+  the DAO class itself, every other variable gets its own `aliased(dao, flat=True)`, JOINed `ON true` the first time it is
+  met (`St.seen`), so a column reference is `(variable, hops, column)` (`ColRef`) and a statement ranges over one row per
+  FROM element (`restEnvs`).  An `==` between relationships accessed directly on the selected and on a not yet seen
+  variable, outside `or_`, is the ON clause of that variable's JOIN (`EqJoin`); everywhere else (below `or_`, variable
+  already seen, longer chains, neither variable selected) it is an ordinary NULL-safe comparison of the two foreign keys.
+  Before the fix every column was resolved BY CLASS (`SqlCond.conflate`: a second variable of the same class denoted the
+  SELECTED row) and every such `==` became a global INNER JOIN of the un-aliased class, at most one per class.
+* Constructs the translator has no case for are `EQLTranslationError`s (`Fail.rejected`): since fix c10063e (F-C07-3)
+  also `set_of` (was AttributeError) and an Index/Call/Flatten/nested-query operand (was an SQLAlchemy ArgumentError); the
+  equality join of the selected class with itself (was InvalidRequestError at execution) is translated, see above.  `Fail.escape` (another exception leaves
+  `eql_to_sql(...).evaluate()`) is kept as an outcome but no longer produced by `translate`.
+* NULL (fix 1eb4fe3, F-C07-2): `!=` is rendered `IS DISTINCT FROM`, `==` between two columns `IS NOT DISTINCT FROM`, and
+  a `None` among the values of `in_` becomes an explicit `IS NULL` alternative (`sqlCmp`, `sqlIn`); the former SQL
+  three-valued behaviour is kept as `sqlCmpLegacy` / `sqlInLegacy` for the counter-example theorems.
 * String columns hold the RANK of the string in a code-point sorted table (equality, order and membership are preserved by
   the ranking); the substring tests (`Expr.substr`) carry that table (`StrTab`) to decode ranks: `contains("lit", attr)` and
   `contains(attr, attr)` and (since fix 20e7107) `contains(attr, "lit")` are `instr(c, i) > 0` (exact); before the fix the
@@ -208,14 +212,16 @@ structure Query where
 
 /-! ## SQL side -/
 
-/-- one aliased INNER JOIN per relationship path: (class of the chain's variable, hops from it) -/
+/-- one aliased INNER JOIN per relationship path: (the chain's variable, hops from it) -/
 structure Join where
-  cls : Cls
+  var : Nat
   path : List Attr
   deriving Repr, DecidableEq
 
-/-- column `col` of the alias reached by `hops` (`[]` = the un-aliased class = the selected row, by class) -/
+/-- column `col` of the alias reached by `hops` from the FROM element of variable `var` (`hops = []`: that element itself:
+the DAO class for the selected variable, the variable's own alias for every other variable) -/
 structure ColRef where
+  var : Nat
   hops : List Attr
   col : Attr
   deriving Repr, DecidableEq
@@ -242,9 +248,10 @@ inductive SqlCond where
   | like (tab : StrTab) (c : ColRef) (lit : Nat)
   deriving Repr, DecidableEq
 
-/-- `select(anchor).join(target, onclause = target.targetRel_id == anchor.anchorRel_id)` -/
+/-- `select(anchor).join(alias_of_target_variable, onclause = alias.targetRel_id == anchor.anchorRel_id)`;
+the anchor is the selected variable -/
 structure EqJoin where
-  target : Cls
+  targetVar : Nat
   targetRel : Attr
   anchorRel : Attr
   deriving Repr, DecidableEq
@@ -258,13 +265,16 @@ inductive Flag where
 
 structure St where
   joins : List Join := []
-  joinedTables : List Cls := []
+  /-- `EQLTranslator.variable_aliases`: the non-selected variables that already are FROM elements -/
+  seen : List Nat := []
   eqJoins : List EqJoin := []
   flags : List Flag := []
   deriving Repr, DecidableEq
 
 structure SqlQuery where
   sel : Cls
+  vars : List Cls
+  seen : List Nat
   joins : List Join
   eqJoins : List EqJoin
   whr : Option SqlCond
@@ -278,59 +288,54 @@ inductive TrErr where
 
 inductive Fail where
   | rejected (e : TrErr)   -- an `EQLTranslationError`
-  | escape                 -- some other exception leaves eql_to_sql(...).evaluate()  (F-C07-3)
+  | escape                 -- some other exception leaves eql_to_sql(...).evaluate()  (F-C07-3; no longer produced)
   | outsideModel           -- not modelled (never generated, no theorem)
   deriving Repr, DecidableEq
 
 /-! ## The translator -/
 
 /-- `_apply_relationship_join`: reuse the alias of an already joined path, else add one aliased inner join. -/
-def addJoin (st : St) (j : Join) (target : Cls) : St :=
-  if st.joins.contains j then st
-  else { st with joins := st.joins ++ [j], joinedTables := st.joinedTables ++ [target] }
+def addJoin (st : St) (j : Join) : St :=
+  if st.joins.contains j then st else { st with joins := st.joins ++ [j] }
 
-/-- `_walk_attribute_chain`, from the DAO of class `base`; `cur` is the class of the current DAO/alias,
+/-- `_entity_of_variable`: the selected variable is the DAO class itself; any other variable gets its own alias, joined
+`ON true` the first time it is met (fix 544475f, F-C07-1; before, every variable was resolved BY CLASS, i.e. to the
+selected row whenever the tables overlapped: see `conflate`). -/
+def markSeen (st : St) (v : Nat) : St :=
+  if v = 0 || st.seen.contains v then st else { st with seen := st.seen ++ [v] }
+
+/-- `_walk_attribute_chain`, from the FROM element of variable `var`; `cur` is the class of the current DAO/alias,
 `acc` the hops walked so far. -/
-def walk (S : Schema) (base : Cls) : Cls → List Attr → List Attr → St → Except Fail (ColRef × St)
+def walk (S : Schema) (var : Nat) : Cls → List Attr → List Attr → St → Except Fail (ColRef × St)
   | _, _, [], _ => .error (.rejected .attributeResolution)           -- "Attribute chain processing error."
   | cur, acc, [a], st =>
     match relTarget S cur a with
-    | some _ => .ok (⟨acc, a⟩, st)                                   -- chain ends on a relationship: its FK column
+    | some _ => .ok (⟨var, acc, a⟩, st)                              -- chain ends on a relationship: its FK column
     | none =>
-      if hasCol S cur a then .ok (⟨acc, a⟩, st)
+      if hasCol S cur a then .ok (⟨var, acc, a⟩, st)
       else .error (.rejected .attributeResolution)                   -- "Column … not found on …"
   | cur, acc, a :: b :: rest, st =>
     match relTarget S cur a with
-    | some t => walk S base t (acc ++ [a]) (b :: rest) (addJoin st ⟨base, acc ++ [a]⟩ t)
+    | some t => walk S var t (acc ++ [a]) (b :: rest) (addJoin st ⟨var, acc ++ [a]⟩)
     | none => .error (.rejected .attributeResolution)                -- "… is not a relationship but chain continues."
 
-/-- `translate_attribute`.  `sel` = class of the selected variable. -/
+/-- `translate_attribute` -/
 def trChain (S : Schema) (vars : List Cls) (c : Chain) (st : St) : Except Fail (ColRef × St) :=
   match vars[c.var]? with
   | none => .error .outsideModel
   | some base =>
     match findClass S base with
     | none => .error (.rejected .missingDAO)
-    | some _ =>
-      if c.var = 0 then walk S base base [] c.path st
-      else
-        -- BY CLASS: the un-aliased column denotes the selected row when its table is in the select's FROM
-        match c.path.head?, vars[0]? with
-        | some a, some sel =>
-          match declaringClass S base a with
-          | some d =>
-            if isSub S sel d then
-              walk S base base [] c.path { st with flags := st.flags ++ [.byClass] }
-            else .error .outsideModel
-          | none => walk S base base [] c.path st       -- unknown attribute: rejected by the walk
-        | _, _ => .error .outsideModel
+    | some _ => walk S c.var base [] c.path (markSeen st c.var)
 
 /-- `_translate_comparator_operand` -/
 def trOperand (S : Schema) (vars : List Cls) (o : Operand) (st : St) : Except Fail (SqlOperand × St) :=
   match o with
   | .chain c => (trChain S vars c st).map fun (r, st) => (.col r, st)
   | .lit v => .ok (.lit v, st)
-  | .other .index | .other .call | .other .flatten => .error .escape
+  -- `isinstance(operand, SymbolicExpression)` without a case: UnsupportedQueryTypeError (before the fix for F-C07-3
+  -- the node was passed through untranslated and SQLAlchemy raised ArgumentError)
+  | .other .index | .other .call | .other .flatten | .other .nested => .error (.rejected .unsupportedQueryType)
   | .other _ => .error .outsideModel
 
 /-- the outcome of `_handle_attribute_equality_join` -/
@@ -339,39 +344,31 @@ inductive EqJoinOutcome where
   | joined (st : St)            -- JOIN emitted (or skipped because the table is already joined): no WHERE part
   | fail (f : Fail)
 
-def eqJoinAttempt (S : Schema) (vars : List Cls) (underOr : Bool) (l r : Chain) (st : St) : EqJoinOutcome :=
-  if l.var = r.var then .fallthrough                       -- `left_leaf is right_leaf`
+/-- `_handle_attribute_equality_join` (reached for `==` between relationships accessed DIRECTLY on two variables, not
+below an `or_`): the non-selected variable is JOINed through its own alias, unless it already is a FROM element — then,
+like everywhere else, the condition is an ordinary comparison of the two foreign keys. -/
+def eqJoinAttempt (S : Schema) (vars : List Cls) (l r : Chain) (st : St) : EqJoinOutcome :=
+  if l.path.length ≠ 1 || r.path.length ≠ 1 then .fallthrough    -- `isinstance(query.left._child_, Variable)` …
+  else if l.var = r.var then .fallthrough                        -- `left_leaf is right_leaf`
   else
-    match vars[l.var]?, vars[r.var]?, vars[0]? with
-    | some lc, some rc, some sel =>
+    match vars[l.var]?, vars[r.var]? with
+    | some lc, some rc =>
       if (findClass S lc).isNone || (findClass S rc).isNone then .fallthrough
       else
-        -- the relationship is looked up on the BASE dao with the LAST attribute name
         match l.path.getLast?, r.path.getLast? with
         | some la, some ra =>
           match relTarget S lc la, relTarget S rc ra with
           | some _, some _ =>
-            if l.path.length ≠ 1 || r.path.length ≠ 1 then .fail .outsideModel
-            else
-              let (target, targetRel, anchorRel) := if lc = sel then (rc, ra, la) else (lc, la, ra)
-              if target = sel then
-                -- join of the selected class with itself: "Don't know how to join to <Mapper …>" (InvalidRequestError,
-                -- at execution) when nothing else was joined before; with earlier joins SQLAlchemy picks some left
-                -- side and answers arbitrarily: outside the model
-                if st.joins.isEmpty && st.eqJoins.isEmpty then .fail .escape else .fail .outsideModel
-              else if isSub S target sel || isSub S sel target then .fail .outsideModel
-              else if (declaringClass S sel anchorRel).isNone then .fail .outsideModel
-              else
-                let fl := if underOr then [Flag.eqJoinUnderOr] else []
-                if st.joinedTables.contains target then
-                  .joined { st with flags := st.flags ++ fl ++ [.eqJoinSkipped] }
-                else
-                  .joined { st with eqJoins := st.eqJoins ++ [⟨target, targetRel, anchorRel⟩],
-                                    joinedTables := st.joinedTables ++ [target],
-                                    flags := st.flags ++ fl }
-          | _, _ => .fallthrough                           -- not both relationships
-        | _, _ => .fail .outsideModel
-    | _, _, _ => .fail .outsideModel
+            let target : Option (Nat × Attr × Attr) :=
+              if l.var = 0 then some (r.var, ra, la) else if r.var = 0 then some (l.var, la, ra) else none
+            match target with
+            | none => .fallthrough                                 -- neither is the selected variable
+            | some (tv, trel, arel) =>
+              if st.seen.contains tv then .fallthrough             -- already a FROM element
+              else .joined { st with seen := st.seen ++ [tv], eqJoins := st.eqJoins ++ [⟨tv, trel, arel⟩] }
+          | _, _ => .fallthrough                                   -- not both relationships
+        | _, _ => .fallthrough
+    | _, _ => .fail .outsideModel
 
 /-- `_combine_logical_parts` for the (at most two) parts of a binary AND/OR -/
 def combine (f : SqlCond → SqlCond → SqlCond) : Option SqlCond → Option SqlCond → Option SqlCond
@@ -393,7 +390,7 @@ def trOrdinary (S : Schema) (vars : List Cls) (op : Cmp) (l r : Operand) (st : S
 /-- `_is_attribute_equality_join` (operator `==`, both operands Attributes) + `_handle_attribute_equality_join` -/
 def eqJoinFor (S : Schema) (vars : List Cls) (underOr : Bool) (op : Cmp) (l r : Operand) (st : St) : EqJoinOutcome :=
   match op, l, r with
-  | .eq, .chain lc, .chain rc => eqJoinAttempt S vars underOr lc rc st
+  | .eq, .chain lc, .chain rc => if underOr then .fallthrough else eqJoinAttempt S vars lc rc st
   | _, _, _ => .fallthrough
 
 /-- `translate_query`.  The result part is `none` when the atom was turned into a JOIN. -/
@@ -425,7 +422,7 @@ def tr (S : Schema) (vars : List Cls) (underOr : Bool) : Expr → St → Except 
       | .error f => .error f
       | .ok (col, st1) => .ok (some (.inList col vs), st1)
     | .lit _ => .error .outsideModel
-    | .other .index | .other .call | .other .flatten => .error .escape
+    | .other .index | .other .call | .other .flatten | .other .nested => .error (.rejected .unsupportedQueryType)
     | .other _ => .error .outsideModel
   | .attr c, st =>
     match trChain S vars c st with
@@ -459,7 +456,7 @@ def tr (S : Schema) (vars : List Cls) (underOr : Bool) : Expr → St → Except 
 /-- `eql_to_sql(query, session)` = `EQLTranslator(query, session).translate()` -/
 def translate (S : Schema) (q : Query) : Except Fail SqlQuery :=
   match q.kind with
-  | .setOf => .error .escape                    -- `SetOf` has no `selected_variable`: AttributeError
+  | .setOf => .error (.rejected .unsupportedQueryType)   -- not an `Entity` (before the fix for F-C07-3: AttributeError)
   | .entity =>
     match q.vars[0]? with
     | none => .error .outsideModel
@@ -472,7 +469,7 @@ def translate (S : Schema) (q : Query) : Except Fail SqlQuery :=
         | some e =>
           match tr S q.vars false e {} with
           | .error f => .error f
-          | .ok (w, st) => .ok ⟨sel, st.joins, st.eqJoins, w, st.flags⟩
+          | .ok (w, st) => .ok ⟨sel, q.vars, st.seen, st.joins, st.eqJoins, w, st.flags⟩
 
 /-! ## SQL execution: three-valued logic, inner joins -/
 
@@ -490,28 +487,58 @@ def litVal : Option Int → Val
   | some n => .num n
   | none => .null
 
-/-- value of an operand for root row `r`; a missing attribute reads as NULL -/
-def sqlOperandVal (db : DB) (r : Nat) : SqlOperand → Val
-  | .col c => (colVal db r c.hops c.col).getD .null
+/-- value of a column reference under `env` (FROM element of variable i ↦ row `env[i]`); `none` = no such column -/
+def sqlColVal (db : DB) (env : List Nat) (c : ColRef) : Option Val :=
+  (env[c.var]?).bind fun i => colVal db i c.hops c.col
+
+/-- value of an operand; a missing attribute reads as NULL -/
+def sqlOperandVal (db : DB) (env : List Nat) : SqlOperand → Val
+  | .col c => (sqlColVal db env c).getD .null
   | .lit v => litVal v
 
-/-- `col == None` is rendered `IS NULL`, `col != None` `IS NOT NULL` (SQLAlchemy operator coercion);
-every other comparison involving NULL is UNKNOWN. -/
-def sqlCmp (db : DB) (r : Nat) (op : Cmp) (a b : SqlOperand) : Option Bool :=
+/-- BEFORE the fix for F-C07-2: `col == None` is rendered `IS NULL`, `col != None` `IS NOT NULL` (SQLAlchemy operator
+coercion); every other comparison involving NULL is UNKNOWN. -/
+def sqlCmpLegacy (db : DB) (env : List Nat) (op : Cmp) (a b : SqlOperand) : Option Bool :=
   match op, a, b with
-  | .eq, x, .lit none => some (sqlOperandVal db r x == .null)
-  | .ne, x, .lit none => some (sqlOperandVal db r x != .null)
-  | .eq, .lit none, x => some (sqlOperandVal db r x == .null)
-  | .ne, .lit none, x => some (sqlOperandVal db r x != .null)
-  | _, _, _ => sqlCmpVal op (sqlOperandVal db r a) (sqlOperandVal db r b)
+  | .eq, x, .lit none => some (sqlOperandVal db env x == .null)
+  | .ne, x, .lit none => some (sqlOperandVal db env x != .null)
+  | .eq, .lit none, x => some (sqlOperandVal db env x == .null)
+  | .ne, .lit none, x => some (sqlOperandVal db env x != .null)
+  | _, _, _ => sqlCmpVal op (sqlOperandVal db env a) (sqlOperandVal db env b)
 
-/-- `x IN (v…)` -/
-def sqlIn (x : Val) (vs : List (Option Int)) : Option Bool :=
+/-- BEFORE the fix for F-C07-2: `x IN (v…)` under three-valued logic -/
+def sqlInLegacy (x : Val) (vs : List (Option Int)) : Option Bool :=
   if vs.isEmpty then some false
   else
     match x with
     | .num n => if vs.contains (some n) then some true else if vs.contains none then none else some false
     | _ => none
+
+/-- `OperatorMapper.map_comparison_operator`: `!=` is `IS DISTINCT FROM` (NULL-safe), `==` between two SQL expressions is
+`IS NOT DISTINCT FROM` (NULL-safe); `col == None` is rendered `IS NULL`; `col == literal` and the ordering operators
+are UNKNOWN on NULL. -/
+def sqlCmpV (op : Cmp) (a b : SqlOperand) (va vb : Val) : Option Bool :=
+  match op with
+  | .ne => some (va != vb)
+  | .eq =>
+    match a, b with
+    | .col _, .col _ => some (va == vb)
+    | _, .lit none => some (va == .null)
+    | .lit none, _ => some (vb == .null)
+    | _, _ => sqlCmpVal .eq va vb
+  | _ => sqlCmpVal op va vb
+
+def sqlCmp (db : DB) (env : List Nat) (op : Cmp) (a b : SqlOperand) : Option Bool :=
+  sqlCmpV op a b (sqlOperandVal db env a) (sqlOperandVal db env b)
+
+/-- `null_safe_in(column, values)`: `x IN (non-None values) OR x IS NULL` when None is among the values, else `x IN (v…)` -/
+def sqlIn (x : Val) (vs : List (Option Int)) : Option Bool :=
+  match x with
+  | .num n => some (vs.contains (some n))
+  | .null =>
+    if vs.contains none then some true
+    else if (vs.filter Option.isSome).isEmpty then some false else none
+  | .ref _ => none
 
 /-! ### strings: exact substring (Python `in`, SQL `instr`) and SQLite's LIKE -/
 
@@ -559,51 +586,75 @@ def or3 : Option Bool → Option Bool → Option Bool
   | some false, some false => some false
   | _, _ => none
 
-def evalSql (db : DB) (r : Nat) : SqlCond → Option Bool
-  | .and a b => and3 (evalSql db r a) (evalSql db r b)
-  | .or a b => or3 (evalSql db r a) (evalSql db r b)
-  | .cmp op a b => sqlCmp db r op a b
-  | .inList c vs => sqlIn ((colVal db r c.hops c.col).getD .null) vs
+def evalSql (db : DB) (env : List Nat) : SqlCond → Option Bool
+  | .and a b => and3 (evalSql db env a) (evalSql db env b)
+  | .or a b => or3 (evalSql db env a) (evalSql db env b)
+  | .cmp op a b => sqlCmp db env op a b
+  | .inList c vs => sqlIn ((sqlColVal db env c).getD .null) vs
   | .instr tab a b =>
     let sv : SqlSOperand → Option (List Char) := fun o =>
       match o with
-      | .col c => strOf tab ((colVal db r c.hops c.col).getD .null)
+      | .col c => strOf tab ((sqlColVal db env c).getD .null)
       | .lit k => strOf tab (.num k)
     match sv a, sv b with
     | some container, some item => some (isInfixL item container)
     | _, _ => none
   | .like tab c k =>
-    match strOf tab ((colVal db r c.hops c.col).getD .null), strOf tab (.num k) with
+    match strOf tab ((sqlColVal db env c).getD .null), strOf tab (.num k) with
     | some text, some l => some (sqlLike text (('%' :: l) ++ ['%']))
     | _, _ => none
   | .truthy c =>
-    match (colVal db r c.hops c.col).getD .null with
+    match (sqlColVal db env c).getD .null with
     | .num n => some (n != 0)
     | .ref _ => some true
     | .null => none
 
 /-- WHERE keeps a row iff the condition is TRUE (not FALSE, not UNKNOWN) -/
-def whereTrue (db : DB) (r : Nat) : Option SqlCond → Bool
+def whereTrue (db : DB) (env : List Nat) : Option SqlCond → Bool
   | none => true
-  | some c => evalSql db r c == some true
+  | some c => evalSql db env c == some true
 
 /-- every aliased INNER JOIN finds its partner row -/
-def joinsOk (db : DB) (r : Nat) (js : List Join) : Bool :=
-  js.all fun j => (navObj db r j.path).isSome
+def joinsOk (db : DB) (env : List Nat) (js : List Join) : Bool :=
+  js.all fun j => ((env[j.var]?).bind fun i => navObj db i j.path).isSome
 
-/-- number of partner rows of an attribute-equality join for root row `r` -/
-def eqJoinCount (S : Schema) (db : DB) (r : Nat) (j : EqJoin) : Nat :=
-  match colVal db r [] j.anchorRel with
-  | some (.ref k) =>
-    ((rootsOf S db j.target).filter fun t => colVal db t [] j.targetRel == some (.ref k)).length
-  | _ => 0
+/-- ON clause of an attribute-equality join: `alias.targetRel_id = anchor.anchorRel_id` (plain `=`: NULL never matches) -/
+def eqJoinOk (db : DB) (env : List Nat) (j : EqJoin) : Bool :=
+  match sqlColVal db env ⟨0, [], j.anchorRel⟩, sqlColVal db env ⟨j.targetVar, [], j.targetRel⟩ with
+  | some (.ref a), some (.ref b) => a == b
+  | _, _ => false
 
-/-- rows returned by `session.scalars(stmt)`: root ids, with the multiplicity the joins produce -/
+/-- the rows the non-selected variables range over: variable `i` (of class `vars[i]`) over every instance of its class
+if it is a FROM element (`seen`), else a single placeholder that is never read -/
+def restEnvs (S : Schema) (db : DB) (seen : List Nat) : Nat → List Cls → List (List Nat)
+  | _, [] => [[]]
+  | i, c :: rest =>
+    (if seen.contains i then rootsOf S db c else [0]).flatMap fun o =>
+      (restEnvs S db seen (i + 1) rest).map fun e => o :: e
+
+/-- rows returned by `session.scalars(stmt)`: the selected row once per combination of rows of the other FROM
+elements that passes the inner joins, the ON clauses and the WHERE clause -/
 def execSql (S : Schema) (s : SqlQuery) (db : DB) : List Nat :=
   (rootsOf S db s.sel).flatMap fun r =>
-    if joinsOk db r s.joins && whereTrue db r s.whr then
-      List.replicate (s.eqJoins.foldl (fun n j => n * eqJoinCount S db r j) 1) r
-    else []
+    ((restEnvs S db s.seen 1 s.vars.tail).filter fun rest =>
+      joinsOk db (r :: rest) s.joins && s.eqJoins.all (eqJoinOk db (r :: rest)) && whereTrue db (r :: rest) s.whr).map
+      fun _ => r
+
+/-- BEFORE the fix for F-C07-1 every column was resolved by class: whenever the tables overlapped (always for two
+variables of one class) a column of another variable denoted the SELECTED row. -/
+def ColRef.conflate (c : ColRef) : ColRef := { c with var := 0 }
+
+def SqlOperand.conflate : SqlOperand → SqlOperand
+  | .col c => .col c.conflate
+  | o => o
+
+def SqlCond.conflate : SqlCond → SqlCond
+  | .and a b => .and a.conflate b.conflate
+  | .or a b => .or a.conflate b.conflate
+  | .cmp op a b => .cmp op a.conflate b.conflate
+  | .inList c vs => .inList c.conflate vs
+  | .truthy c => .truthy c.conflate
+  | c => c
 
 /-! ## In-memory reference semantics -/
 
